@@ -107,7 +107,17 @@ impl<'a> Gen<'a> {
     fn legacy_program(&mut self) -> Cmd {
         let n = self.rng.range(1, 3) as usize;
         let scripts: Vec<Cmd> = (0..n)
-            .map(|_| Cmd::Async(self.script(1, Flags::default())))
+            .map(|_| {
+                let mut c = Cmd::Async(self.script(1, Flags::default()));
+                // child / grandchild capabilities made with `map_event`
+                if self.rng.chance(1, 3) {
+                    for _ in 0..self.rng.range(1, 3) {
+                        let k = if self.rng.chance(1, 4) { 0 } else { self.rng.range(1, 200) as u8 };
+                        c = Cmd::MapEvent(Box::new(c), k);
+                    }
+                }
+                c
+            })
             .collect();
         if scripts.len() == 1 && self.rng.chance(1, 2) {
             scripts.into_iter().next().unwrap()
